@@ -98,5 +98,61 @@ ASSUMPTIONS = [
     "outcomes of the delegate: any value, socket.timeout, ConnectionError, ConnectionTimeout, ApiError(any status), other TransportError, some other exception (KeyError as representative); except-matching through the issubclass facts dumped from the installed libraries",
     "retries >= 0 (track schema); asyncio.sleep only appends a ghost event; sys.maxsize = 2^63-1",
 ]
-NOT_DECIDED = ["wall-clock timing of the waits", "which operations register_default_runners wraps in Retry (not yet under contract)"]
+NOT_DECIDED = ["wall-clock timing of the waits"]
 TRUSTED = []
+
+
+def extra_checks(runner, ev):
+    """Call-site obligations (syntactic, on the real AST and the real documentation): every operation type that docs/track.rst marks as
+    retryable is registered by register_default_runners with a runner wrapped in Retry(...) -- otherwise its retry parameters are ignored."""
+    import ast
+    import json
+    import os
+    import re
+
+    from pyvc.extract import RepoIndex, repo_root
+
+    cov = ev["coverage"]
+    rst_path = os.path.join(repo_root(), "docs", "track.rst")
+    if not os.path.exists(rst_path):
+        # a scratch copy without docs/: fall back to the repository's documentation
+        rst_path = "/repo/docs/track.rst"
+    rst = open(rst_path, encoding="utf-8").read().splitlines()
+    documented = []
+    for i, line in enumerate(rst):
+        if "is :ref:`retryable" in line:
+            j = i
+            while j > 0 and not (re.fullmatch(r"~{3,}", rst[j].strip()) and rst[j - 1].strip()):
+                j -= 1
+            documented.append(rst[j - 1].strip())
+    m, fn = RepoIndex().locate("esrally/driver/runner.py::register_default_runners")
+    regs = {}
+    for node in ast.walk(fn):
+        if isinstance(node, ast.Call) and ast.unparse(node.func) == "register_runner" and len(node.args) >= 2 and ast.unparse(node.args[0]).startswith("track.OperationType."):
+            regs[ast.unparse(node.args[0]).rsplit(".", 1)[1]] = node.args[1]
+    bad = []
+    for op in documented:
+        enum = "".join(part.capitalize() for part in op.split("-"))
+        expr = regs.get(enum)
+        if expr is None:
+            bad.append({"operation": op, "problem": f"no register_runner(track.OperationType.{enum}, ..) in register_default_runners"})
+        elif not (isinstance(expr, ast.Call) and ast.unparse(expr.func) == "Retry"):
+            bad.append({"operation": op, "registered": ast.unparse(expr), "problem": "documented as retryable but the registered runner is not wrapped in Retry(..)"})
+    n = len(documented)
+    cov["call_site_obligations"] = {"operations documented as retryable": n, "failed": bad}
+    cov["obligations"] += n
+    cov["discharged"] += n - min(n, len(bad))
+    if n < 20:
+        cov["undecided_now"].append({"function": "register_default_runners", "kind": "vacuity", "detail": f"only {n} retryable operations found in docs/track.rst"})
+        return 2
+    if bad:
+        outdir = os.path.join(os.path.dirname(os.path.dirname(os.path.abspath(__file__))), "out", "C16")
+        os.makedirs(outdir, exist_ok=True)
+        path = os.path.join(outdir, "retryable_operations_wrapped.json")
+        json.dump({"property": "C16", "obligation": "C16/register_default_runners/retryable-operations-wrapped", "target": "esrally/driver/runner.py::register_default_runners", "failed": bad,
+                   "verifier": "syntactic call-site obligation: docs/track.rst vs the real AST"}, open(path, "w"), indent=1)
+        print(f"VIOLATION property=C16 replay={path} no-failing-input-found")
+        ev["violations"] += len(bad)
+        return 1
+    return 0
+
